@@ -929,6 +929,11 @@ impl Sim {
                 });
             }
             Step::ServerFrame { tick } => self.server_frame(tick),
+            Step::IdleFrames { n } => {
+                for _ in 0..n.min(12) {
+                    self.server_frame(false);
+                }
+            }
             Step::TickJump { by } => {
                 if self.cfg.policy == 0 && self.running {
                     self.next_jump = (by as u32).clamp(1, 200);
